@@ -375,6 +375,89 @@ int main(int argc, char **argv) {
       errs() << "thread " << F.getName() << " T branch on a phi with constant incoming values\n";
       recvNames.insert(std::string(F.getName()));
     }
+    // (R) `return p != NULL;` (or == NULL) after the same pointer was already tested by a branch: the two outcomes
+    // are merged before the return, so success and failure share one tail.  The return is split into a branch with
+    // two constant returns; jump threading (below) then separates the tails again.
+    std::vector<ReturnInst *> rets;
+    for (BasicBlock &B : F)
+      if (auto *RI = dyn_cast<ReturnInst>(B.getTerminator()))
+        if (RI->getReturnValue()) rets.push_back(RI);
+    // the same through the usual -O0 shape "br label %return; return: ret (phi ...)": split the incoming edge
+    for (ReturnInst *RI : rets) {
+      auto *PN = dyn_cast<PHINode>(RI->getReturnValue());
+      if (!PN || PN->getParent() != RI->getParent()) continue;
+      bool onlyPhis = true;
+      for (Instruction &I : *RI->getParent())
+        if (!isa<PHINode>(I) && !isa<DbgInfoIntrinsic>(I) && &I != RI) onlyPhis = false;
+      if (!onlyPhis) continue;
+      for (unsigned k = 0; k < PN->getNumIncomingValues();) {
+        Value *V = PN->getIncomingValue(k);
+        BasicBlock *Pred = PN->getIncomingBlock(k);
+        ICmpInst *IC = nullptr;
+        if (auto *Z = dyn_cast<ZExtInst>(V)) IC = dyn_cast<ICmpInst>(Z->getOperand(0));
+        else IC = dyn_cast<ICmpInst>(V);
+        auto *PB = dyn_cast<BranchInst>(Pred->getTerminator());
+        bool ok = IC && IC->isEquality() && IC->getOperand(0)->getType()->isPointerTy() &&
+                  isa<ConstantPointerNull>(IC->getOperand(1)) && PB && PB->isUnconditional() &&
+                  PN->getNumIncomingValues() > 1;
+        if (ok) {
+          bool tested = false;
+          for (User *U : IC->getOperand(0)->users())
+            if (auto *C2 = dyn_cast<ICmpInst>(U))
+              if (C2 != IC && C2->isEquality())
+                for (User *UU : C2->users())
+                  if (isa<BranchInst>(UU)) tested = true;
+          ok = tested;
+        }
+        // every phi of the return block must be handled: only the returned one may exist
+        unsigned nphi = 0;
+        for (Instruction &I : *RI->getParent()) if (isa<PHINode>(I)) ++nphi;
+        if (!ok || nphi != 1) { ++k; continue; }
+        LLVMContext &Cx = F.getContext();
+        BasicBlock *TB = BasicBlock::Create(Cx, Pred->getName() + ".ret.t", &F);
+        BasicBlock *FB = BasicBlock::Create(Cx, Pred->getName() + ".ret.f", &F);
+        Type *RT = F.getReturnType();
+        ReturnInst::Create(Cx, ConstantInt::get(RT, 1), TB)->setDebugLoc(RI->getDebugLoc());
+        ReturnInst::Create(Cx, ConstantInt::get(RT, 0), FB)->setDebugLoc(RI->getDebugLoc());
+        BranchInst *BR = BranchInst::Create(TB, FB, IC, PB);
+        BR->setDebugLoc(PB->getDebugLoc());
+        PB->eraseFromParent();
+        PN->removeIncomingValue(k, false);
+        errs() << "thread " << F.getName() << " R return of a null test that a branch already made\n";
+        recvNames.insert(std::string(F.getName()));
+      }
+    }
+    for (ReturnInst *RI : rets) {
+      Value *V = RI->getReturnValue();
+      ICmpInst *IC = nullptr;
+      if (auto *Z = dyn_cast<ZExtInst>(V)) IC = dyn_cast<ICmpInst>(Z->getOperand(0));
+      else IC = dyn_cast<ICmpInst>(V);
+      if (!IC || !IC->isEquality() || !IC->getOperand(0)->getType()->isPointerTy() ||
+          !isa<ConstantPointerNull>(IC->getOperand(1)))
+        continue;
+      Value *P = IC->getOperand(0);
+      bool tested = false;
+      for (User *U : P->users())
+        if (auto *C2 = dyn_cast<ICmpInst>(U))
+          if (C2 != IC && C2->isEquality())
+            for (User *UU : C2->users())
+              if (isa<BranchInst>(UU)) tested = true;
+      if (!tested) continue;
+      BasicBlock *BB = RI->getParent();
+      LLVMContext &Cx = F.getContext();
+      BasicBlock *TB = BasicBlock::Create(Cx, BB->getName() + ".ret.t", &F);
+      BasicBlock *FB = BasicBlock::Create(Cx, BB->getName() + ".ret.f", &F);
+      Type *RT = F.getReturnType();
+      ReturnInst::Create(Cx, ConstantInt::get(RT, 1), TB);
+      ReturnInst::Create(Cx, ConstantInt::get(RT, 0), FB);
+      BranchInst *BR = BranchInst::Create(TB, FB, IC, RI);
+      BR->setDebugLoc(RI->getDebugLoc());
+      TB->getTerminator()->setDebugLoc(RI->getDebugLoc());
+      FB->getTerminator()->setDebugLoc(RI->getDebugLoc());
+      RI->eraseFromParent();
+      errs() << "thread " << F.getName() << " R return of a null test that a branch already made\n";
+      recvNames.insert(std::string(F.getName()));
+    }
   }
   for (const std::string &N : recvNames) {
     Function *R = M->getFunction(N);
@@ -397,7 +480,7 @@ int main(int argc, char **argv) {
       FAM.invalidate(*R, PreservedAnalyses::none());
     }
     FunctionPassManager F3;
-    F3.addPass(JumpThreadingPass());
+    F3.addPass(JumpThreadingPass(false, 60));
     F3.run(*R, FAM);
     FAM.invalidate(*R, PreservedAnalyses::none());
     removeUnreachableBlocks(*R);
